@@ -7,7 +7,7 @@
    declaration parsers are outside every theorem here (sanitizer runs in harness/props/c10.py). *)
 From Coq Require Import List Arith NArith Bool Ascii String Lia.
 From Cb Require Import C17.Model C10.Model C10.Lexer C10.ExprParse C10.LexerTotal C10.ExprTotal C10.ExprGuard C10.PreprocTotal
-  C10.Typedefs C10.TypedefsTotal.
+  C10.Typedefs C10.TypedefsTotal C10.StructGraph C10.StructGraphTotal.
 Import ListNotations.
 
 (* ------------------------------------------------------------------ lexer *)
@@ -200,7 +200,37 @@ Proof.
 Qed.
 Print Assumptions typedef_start_only_check_total_refuted.
 
+(* ------------------------------------------------------------------ declaration-level tables: struct value-member cycles (StructGraph.v) *)
+(* TypeUtilityParser::detectCircularReference AS CODED (names of the current path in `visited`) recurses at most
+   |struct_definitions_| + 1 deep on EVERY table and for every start / member type: no arrangement of struct definitions -
+   cycles through the struct being defined or elsewhere - makes the check run forever or overflow the stack by itself *)
+Theorem struct_cycle_check_total : forall (g : sgraph) (start ty : string),
+  detect (S (List.length g)) g start ty [] <> None.
+Proof. exact detect_total_l. Qed.
+Print Assumptions struct_cycle_check_total.
+
+(* the check made by  struct N { .. };  for each value member is therefore always decided *)
+Theorem struct_decl_check_decided : forall (g : sgraph) n ms (m : member),
+  let g1 := sg_set g n (mkS false ms) in
+  detect (S (List.length g1)) g1 n (fst m) [] = Some true \/ detect (S (List.length g1)) g1 n (fst m) [] = Some false.
+Proof. exact sg_step_check_decided. Qed.
+Print Assumptions struct_decl_check_decided.
+
 (* the hypotheses are satisfiable / the models compute *)
+(* cost of the same walk (finding C10-struct-diamond-exponential): a struct reached along two paths is walked twice - the
+   accepted family  struct M0 {int v;}; struct M(i+1) { Mi a; Mi b; };  costs 2^(n+1) - 2 activations for its last struct *)
+Example struct_diamond_cost :
+  map (fun n => snd (sg_run [] (diamond n))) [1; 5; 9] = [None; None; None] /\
+  map diamond_calls [1; 2; 3; 4; 5; 6; 7; 8; 9; 10] = [2; 6; 14; 30; 62; 126; 254; 510; 1022; 2046].
+Proof. vm_compute. split; reflexivity. Qed.
+Example struct_cycle_samples :
+  map (fun ds => snd (sg_run [] ds))
+    [[SDef "A" [("A", MValue)]]; [SDef "A" [("A", MPtr)]]; [SDef "A" [("A", MArr)]];
+     [SDef "A" []; SDef "B" [("A", MValue)]; SDef "A" [("B", MValue)]];
+     [SFwd "B"; SDef "A" [("B", MValue)]; SDef "B" [("A", MPtr)]];
+     [SFwd "B"; SDef "A" [("B", MValue)]; SDef "B" [("A", MValue)]]]%string =
+  [Some (ESelfRec "A"); None; Some (ESelfRec "A"); Some (ECircular "A"); None; Some (ECircular "B")]%string.
+Proof. vm_compute. reflexivity. Qed.
 Example typedef_rho_tables :
   tm (fst (td_run empty_tables rho_program)) = [("A", "T"); ("C", "T"); ("T", "A")]%string /\
   snd (td_run empty_tables rho_program) = None /\
